@@ -134,6 +134,7 @@ pub fn profile(which: Which) -> Profile {
             pf.kinds[7] = 2;
             pf.kinds[8] = 1;
             pf.sat_pct = 30;
+            pf.maxplus_pct = 20;
             pf
         }
         Which::Interning => {
@@ -168,8 +169,13 @@ pub fn profile(which: Which) -> Profile {
 pub fn gen_shut_case(tape: &[u32], which: Which, iterations: u32) -> ShutCase {
     let mut t = Tape::new(tape);
     let sched_seed = ((t.raw() as u64) << 32) | t.raw() as u64;
-    let sched = t.weighted(&[3, 1, 2, 2, 1]) as u8; // random, pct1, pct2, pct3, pct5
-    let sched = if sched == 4 { 5 } else { sched };
+    let sched = t.weighted(&[3, 1, 2, 2, 1, 1, 1]) as u8; // random, pct 1, 2, 3, 5, 15, 30
+    let sched = match sched {
+        4 => 5,
+        5 => 15,
+        6 => 30,
+        s => s,
+    };
     let which = if which == Which::Proto { if t.chance(2, 3) { Which::Cycles } else { Which::Readers } } else { which };
     let mut pf = profile(which);
     // C16 with eviction: lru functions with a tiny capacity, evicted at the write between phases
